@@ -30,6 +30,23 @@ type H struct {
 	// contains the panic; the handler goes on receiving the other events, one
 	// at a time.
 	PanicEvery int `json:"panic_every,omitempty"`
+	// FilterMod > 0 (Async+Sequential handlers of the order and burst cases):
+	// subscribed with a WithFilter predicate that rejects every event whose
+	// id is a multiple of FilterMod.  The handler processes the accepted
+	// events, in publish order; a rejected one leaves no trace in its line.
+	FilterMod int `json:"filter_mod,omitempty"`
+}
+
+// takes reports whether h's filter accepts event id.
+func (h H) takes(id int) bool { return h.FilterMod <= 0 || id%h.FilterMod != 0 }
+
+// seqOpts: the option list of an Async+Sequential handler, with its filter.
+func (h H) seqOpts() []eventbus.SubscribeOption {
+	so := h.asyncSeq()
+	if h.FilterMod > 0 {
+		so = append(so, eventbus.WithFilter(func(e Ev) bool { return h.takes(e.ID) }))
+	}
+	return so
 }
 
 // pub publishes e, through the static type any when viaAny is set (the
@@ -363,7 +380,7 @@ func runOrder(c *OrderCase, k *counters) *vkit.Outcome {
 			s.seen = append(s.seen, id)
 			s.mu.Unlock()
 		}
-		so := h.asyncSeq()
+		so := h.seqOpts()
 		if h.Ctx {
 			eventbus.SubscribeContext(bus, func(_ context.Context, e Ev) { body(e.ID) }, so...)
 		} else {
@@ -389,16 +406,25 @@ func runOrder(c *OrderCase, k *counters) *vkit.Outcome {
 		want[i] = i
 	}
 	for i, s := range sts {
-		want := want
+		all := want
 		if i == 0 && pre > 0 {
 			w0 := make([]int, 0, pre+c.N)
 			for id := 0; id < pre; id++ {
 				w0 = append(w0, 100000+id)
 			}
-			want = append(w0, want...)
+			all = append(w0, all...)
+		}
+		want := make([]int, 0, len(all))
+		for _, id := range all {
+			if c.Handlers[i].takes(id) {
+				want = append(want, id)
+			}
+		}
+		if len(want) != len(all) {
+			o.Class("filtered_async_sequential_handler")
 		}
 		if fmt.Sprint(s.seen) != fmt.Sprint(want) {
-			o.Failf("async-sequential-out-of-order", "Async+Sequential handler %d processed events in order %v; they were published by one goroutine in order 0..%d", i, s.seen, c.N-1)
+			o.Failf("async-sequential-out-of-order", "Async+Sequential handler %d %+v processed events in order %v; they were published by one goroutine in order 0..%d (its filter accepts %v)", i, c.Handlers[i], s.seen, c.N-1, want)
 			return o
 		}
 	}
